@@ -9,7 +9,8 @@ package c10
 // goroutines: phases of 405s only, 404s only, 202s only, and everything mixed (the reference is used to sort the
 // requests into the phases, not to judge). Nothing is asserted here: bin/check builds this with -race and reports
 // a DATA RACE the detector prints as a violation (key data-race). The goroutines share nothing of the harness
-// but read-only tables: each has its own reader, request and recorder.
+// but read-only tables: each has its own reader, request and recorder. Part (0) adds the process history dimension:
+// one goroutine reloads / relabels / rewrites the file in the opposite route order while the others serve.
 
 import (
 	"bufio"
@@ -110,9 +111,62 @@ func TestRace(t *testing.T) {
 	// wall budget: ends the pass early, never fails it
 	t0r := time.Now()
 	// every part has its own share of the budget, so that a loaded machine shortens each part instead of dropping the later ones
-	deadline := t0r.Add(24 * time.Second)
 	ip := interp{CollapseSlashes: true, HostDotStripped: true, HeaderCommaList: false, UnmapV4InV6: true} // phase sorting only
 	booted, served := 0, 0
+
+	// (0) process history (history_test.go): while the request table is served by overlapping goroutines, one more
+	// goroutine takes the gateway through the production operations reload / comment edit / label / unlabel / reversed
+	// route order. The route table a request scans must not be written by a reload (it is documented as replaced wholesale).
+	deadline := t0r.Add(7 * time.Second)
+	var hcfgs []hfCfg
+	for _, c := range hfConfigs(false) {
+		if c.Part == "order" && len(c.Routes) >= 2 {
+			hcfgs = append(hcfgs, c)
+		}
+	}
+	for stride := 0; stride < 97; stride++ { // strided: two- and three-route lists of every shape come up early
+		for ci := stride; ci < len(hcfgs); ci += 97 {
+			if time.Now().After(deadline) {
+				stride = 97
+				break
+			}
+			c := hcfgs[ci]
+			l, dsl, err := hfBoot(c.Routes, 1599)
+			if err != nil {
+				t.Fatalf("race pass: boot: %v\n%s", err, dsl)
+			}
+			var all []raceReq
+			for _, q := range requestsFor(0) {
+				all = append(all, raceReq{q.raw(), reqRemotes[q.Remote]})
+			}
+			done := make(chan struct{})
+			var opsWG sync.WaitGroup
+			opsWG.Add(1)
+			go func() { // the only goroutine that touches l
+				defer opsWG.Done()
+				var st hfStats
+				ops := []hfOp{op(hoReload), op(hoComment), opLabel(0), op(hoReload), op(hoUnlabel), op(hoReverse), opLabel(len(c.Routes) - 1), op(hoReverse)}
+				for i := 0; ; i++ {
+					select {
+					case <-done:
+						return
+					default:
+					}
+					if _, err := l.apply(ops[i%len(ops)], &st); err != nil {
+						return
+					}
+				}
+			}()
+			raceOverlap(l.b.a, [][]raceReq{all}, 4)
+			close(done)
+			opsWG.Wait()
+			served += 4 * raceThreads * len(all)
+			l.b.a.Shutdown()
+			booted++
+		}
+	}
+	hbooted := booted
+	deadline = time.Now().Add(24 * time.Second)
 
 	// (1) method family. Configurations are visited so that every parent length comes up early.
 	cfgs := mfConfigs(false)
@@ -206,5 +260,5 @@ func TestRace(t *testing.T) {
 		a.Shutdown()
 		booted++
 	}
-	t.Logf("race pass: %d configurations, %d overlapping requests in %d threads", booted, served, raceThreads)
+	t.Logf("race pass: %d configurations (%d of them with reload / management operations in flight), %d overlapping requests in %d threads", booted, hbooted, served, raceThreads)
 }
